@@ -22,6 +22,7 @@ type Engine struct {
 	pkgs    []*packages.Package
 	prog    *ssa.Program
 	spkgs   []*ssa.Package
+	initOnly map[*ssa.Global]bool
 	db      *SpecDB
 	ti      *TypeInfo
 	globals map[*ssa.Global]int
@@ -331,6 +332,16 @@ func (e *Engine) globalConst(fc *FnCtx, g *ssa.Global, st *State) (Val, bool) {
 		}
 		fc.note("package-level error sentinels are distinct non-nil constants, never reassigned")
 		return scalar(mk(SIface, name)), true
+	}
+	if _, isFn := elem.Underlying().(*types.Signature); isFn && e.initOnlyGlobal(g) {
+		// a package-level function variable assigned only by its initialiser: a non-nil constant
+		name := "gfn_" + sanitize(g.Pkg.Pkg.Path()+"."+g.Name())
+		if !fc.sc.funcs[name] {
+			fc.sc.DeclFun(name, nil, SInt)
+			fc.sc.Assert(And(Gt(mk(SInt, name), IntLit(0)), Lt(mk(SInt, name), IntLit(100000))))
+		}
+		fc.note("package-level function variables that are assigned only by their initialiser are non-nil constants")
+		return scalar(mk(SInt, name)), true
 	}
 	if types.TypeString(elem, nil) == "encoding/binary.bigEndian" || types.TypeString(elem, nil) == "encoding/binary.littleEndian" {
 		return Val{Fs: []Val{}}, true
@@ -670,4 +681,54 @@ func parseGhostVar(c *Clause) (string, Sort) {
 	}
 	unsup("%s:%d: ghostvar sort %s (int, bool, any)", c.File, c.Line, f[1])
 	return "", SInt
+}
+
+
+// initOnlyGlobal: every store to g in the whole program is in its package's init function, and that store
+// writes a function (closure / function value), not nil.
+func (e *Engine) initOnlyGlobal(g *ssa.Global) bool {
+	if e.initOnly == nil {
+		e.initOnly = map[*ssa.Global]bool{}
+		bad := map[*ssa.Global]bool{}
+		good := map[*ssa.Global]bool{}
+		for f := range ssautil.AllFunctions(e.prog) {
+			for _, b := range f.Blocks {
+				for _, in := range b.Instrs {
+					switch x := in.(type) {
+					case *ssa.Store:
+						if gg, ok := x.Addr.(*ssa.Global); ok {
+							isInit := f.Name() == "init" && f.Pkg == gg.Pkg
+							if !isInit {
+								bad[gg] = true
+								continue
+							}
+							switch x.Val.(type) {
+							case *ssa.MakeClosure, *ssa.Function:
+								good[gg] = true
+							default:
+								bad[gg] = true
+							}
+						}
+					default:
+						// address of the global escaping anywhere else than a load makes it mutable
+						if v, ok := in.(ssa.Instruction); ok {
+							for _, op := range v.Operands(nil) {
+								if gg, ok := (*op).(*ssa.Global); ok {
+									if u, isLoad := in.(*ssa.UnOp); !(isLoad && u.Op == token.MUL) {
+										bad[gg] = true
+									}
+								}
+							}
+						}
+					}
+				}
+			}
+		}
+		for gg := range good {
+			if !bad[gg] {
+				e.initOnly[gg] = true
+			}
+		}
+	}
+	return e.initOnly[g]
 }
